@@ -22,10 +22,30 @@ def tag_of(t):
     return None
 
 
+# crate functions the rules name as atoms of a construction (never looked through)
+ATOMS = {
+    "BlsTimeCrypt::compute_v",
+    "BlsTimeCrypt::compute_w",
+    "BlsTimeCrypt::seal",
+    "BlsTimeCrypt::unseal",
+    "BlsSignCrypt::seal",
+    "BlsSignCrypt::unseal",
+    "BlsSignCrypt::valid",
+    "BlsSignCrypt::verify_share",
+    "BlsSignatureProof::generate_timestamp_based_y",
+    "BlsSignatureProof::compute_y",
+    "BlsSignatureCore::public_key",
+    "helpers::byte_xor",
+    "helpers::get_crypto_rng",
+    "helpers::pairing_g1_g2",
+    "helpers::pairing_g2_g1",
+}
+
+
 def local_inliner(P):
     def only(f):
-        # inline crate-local helpers except the core_* sinks and hash functions (kept as atoms)
-        return f.key not in PRODUCERS and f.key not in CONSUMERS and not f.key.endswith("::hash_to_point") and not f.key.endswith("::hash_to_scalar")
+        # inline crate-local helpers except the core_* sinks, hash functions and the named atoms
+        return f.key not in PRODUCERS and f.key not in CONSUMERS and f.key not in ATOMS and not f.key.endswith("::hash_to_point") and not f.key.endswith("::hash_to_scalar")
 
     return only
 
@@ -513,20 +533,26 @@ def check_seeded_derivation(ctx, P, rule="E5.seeded"):
         ctx.ob(rule, fk, ok, "%s = hash_to_scalar(rng.gen::<[u8;32]>(), KEYGEN_SALT): %s" % (fk, detail), where=where(f))
     if len(shapes) >= 2:
         ctx.ob(rule, "siblings", len(set(shapes.values())) == 1, "seeded derivations agree: %s" % shapes)
-    # Field::random who-may-call
-    allowed = {"BlsSignatureProof::generate_commitment", "BlsSignatureProof::generate_timestamp_proof"}
+    # Field::random (the backend's own sampler): never on a path that derives a value from a caller's seed.
+    # Decided as reachability: nothing reachable from the seed-deterministic derivations calls it; the ephemeral
+    # samplers (commitment secrets, ElGamal blinders and their helpers) are free to.
+    from .common import reachable_fns
+
+    import re as _re
+
+    det_rx = _re.compile(r"::(from_hash|secret_key_from_hash|proof_challenge_from_hash|hash_to_scalar|hash_to_point|core_sign|core_partial_sign|pop_prove|public_key|compute_y|message_generator)$")
+    det_roots = [P.fns.get(k) for k in fns] + [g for k, g in sorted(P.fns.items()) if det_rx.search(k)]
+    det = reachable_fns(P, [r for r in det_roots if r is not None])
     n = 0
+    bad = []
     for f in P.fns.values():
         for bb, t in f.calls():
             c = t.get("callee") or {}
             if c.get("trait") == "Field" and c.get("name") == "random":
                 n += 1
-                base = f
-                k = 0
-                while base is not None and base.kind == "Closure" and k < 4:
-                    base = P.fns.get(base.j.get("parent_key"))
-                    k += 1
-                bk = base.key if base is not None else f.key
-                ok = bk in allowed or bk.startswith("BlsElGamal::seal_")
-                ctx.ob(rule + ".field-random", f.key, ok, "backend-specific sampling Field::random is used only for ephemeral values (commitment secrets, ElGamal blinders), never for values derived from a caller's seed", where=where(f, bb))
-    ctx.floor(rule + ".field-random", "Field::random call sites", n, 6)
+                if f.key in det:
+                    bad.append((f, bb))
+    for f, bb in bad:
+        ctx.ob(rule + ".field-random", f.key, False, "backend-specific sampling Field::random is reachable from a seed-deterministic derivation (%s): the two backends would derive different values from the same seed" % ", ".join(k for k in fns if P.fns.get(k) is not None and f.key in reachable_fns(P, [P.fns[k]])), where=where(f, bb))
+    ctx.ob(rule + ".field-random", "deterministic-closure", not bad, "no Field::random call among the %d functions reachable from the seed-deterministic derivations (%d Field::random call sites elsewhere: ephemeral values)" % (len(det), n))
+    ctx.floor(rule + ".field-random", "Field::random call sites seen by the rule (detector is live)", n, 1)
